@@ -173,7 +173,7 @@ func c14Codec(dl time.Time) engine.UnitResult {
 		}
 	}
 	gen([]string{"a", "b"}, 3, "", &provs)
-	gen([]string{"a", "A", ";", ":", "+", "%"}, 5, "", &uids)
+	gen([]string{"a", "A", ";", ":", "+", "%", "\xe9", "\xe8"}, 4, "", &uids)
 	type pair struct{ p, u string }
 	pids := map[string]pair{}
 	for _, p := range provs {
@@ -210,7 +210,7 @@ func c14Codec(dl time.Time) engine.UnitResult {
 func init() {
 	engine.Register(&engine.Property{
 		ID: "C14", Level: "model_checking",
-		Rule: "E1 over start / callback requests of two browsers and two providers with state in {own, other browser's, previous, empty, garbage} x code in {plain uid, uid with ';;', with ';', mixed-case uids, invalid} x provider error; plus the complete PID codec product (provider strings <= 3 over {a,b} x uid strings <= 5 over {a, A, ;, :, +, %}); classes = login / refusal kinds and codec uid classes",
+		Rule: "E1 over start / callback requests of two browsers and two providers with state in {own, other browser's, previous, empty, garbage} x code in {plain uid, uid with ';;', with ';', mixed-case uids, invalid} x provider error; plus the complete PID codec product (provider strings <= 3 over {a,b} x uid strings <= 4 over {a, A, ;, :, +, %, and the invalid UTF-8 bytes 0xE9, 0xE8}); classes = login / refusal kinds and codec uid classes",
 		Units: func(tier string) []engine.Unit {
 			scs := c14Scenarios(tier)
 			us := e1Units(append(scs, configVariants(scs, tier, "err500", "nil-state", "nomount")...))
